@@ -1723,6 +1723,18 @@ impl Gen {
         for s in &pool {
             self.push("mismatch", "hassig", vec![s.clone()]);
         }
+        // body signatures that no header can deliver (validate_signature refuses them) but `from_parts` takes: balanced
+        // brackets, so that SignatureIter (which expects a valid signature) can walk them; the body entry points
+        // must answer with an error. Crash-only: the model has no such types.
+        let a33 = format!("{}y", "a".repeat(33));
+        let s33 = format!("{}y{}", "(".repeat(33), ")".repeat(33));
+        for sig in [a33.as_str(), s33.as_str(), "a{vs}", "a{sss}", "()", "a()", "{ss}", "a{}", "z", "yzy", "a{(y)s}", "r", "e", "a{s}", "(y)()", "yy{yy}", "a{sa{vs}}"] {
+            for bo in ORDERS {
+                for bytes in [vec![], vec![0u8; 16], vec![4, 0, 0, 0, 1, 2, 3, 4, 0, 0, 0, 0]] {
+                    self.body("mismatch", bo, sig, &hex(&bytes));
+                }
+            }
+        }
     }
 
     // ---- Cow<[E]> / Vec<E> / &[u8] at every alignment ---------------------------------------------
@@ -2003,12 +2015,30 @@ impl<'a> Eval<'a> {
         };
         match c.kind.as_str() {
             "dec" if short(&c.args[2]) => vec![(format!("c04.dec {} {} {}", c.args[0], c.args[1], c.args[2]), "V".into())],
-            "body" if short(&c.args[2]) => vec![
+            "body" if short(&c.args[2]) && (c.args[1] == "-" || sig_ok(&c.args[1])) => vec![
                 (format!("c04.body {} ~ {} {}", c.args[0], c.args[1], c.args[2]), "~".into()),
                 (format!("c04.body {} 0 {} {}", c.args[0], c.args[1], c.args[2]), "0".into()),
             ],
             "slice" if short(&c.args[3]) => (0..8).map(|b| (format!("c04.slice {} {} {} {} {}", c.args[0], b, c.args[1], c.args[2], c.args[3]), format!("c{}", b))).collect(),
             _ => vec![(descr(c), "survived".into())],
+        }
+    }
+
+    /// worker deaths / hangs first: they are the most valuable violations and the list is capped
+    fn report_deaths(&mut self, c: &Case, res: &[Option<&WRes>]) {
+        for (b, r) in res.iter().enumerate() {
+            let build = self.builds[b];
+            match r {
+                Some(WRes::Died(d)) => {
+                    let req0 = self.requests(c)[0].0.clone();
+                    self.out.violation(&req0, &format!("worker ({} build) {}", build, d));
+                }
+                Some(WRes::BatchOnly(d, _)) => {
+                    let req0 = self.requests(c)[0].0.clone();
+                    self.out.violation(&req0, &format!("worker ({} build) {} -- inside its batch; it answered when run alone", build, d));
+                }
+                _ => {}
+            }
         }
     }
 
@@ -2024,15 +2054,14 @@ impl<'a> Eval<'a> {
             match r {
                 None => fields.push(None),
                 Some(WRes::Answered(f)) => fields.push(Some(f.clone())),
-                Some(WRes::Died(d)) => {
+                // (the violation itself has been reported by report_deaths, ahead of everything else)
+                Some(WRes::Died(_)) => {
                     bad = true;
-                    self.out.violation(&req0, &format!("worker ({} build) {}", build, d));
                     self.out.hit(&format!("build.{}.died", build));
                     fields.push(None);
                 }
-                Some(WRes::BatchOnly(d, f)) => {
+                Some(WRes::BatchOnly(_, f)) => {
                     bad = true;
-                    self.out.violation(&req0, &format!("worker ({} build) {} -- inside its batch; it answered when run alone", build, d));
                     self.out.hit(&format!("build.{}.died", build));
                     fields.push(Some(f.clone()));
                 }
@@ -2359,12 +2388,18 @@ pub fn run(cfg: &Cfg) {
     let t_workers = t_start.elapsed();
     {
         let mut ev = Eval { out: &mut out, builds: builds.clone(), max_ratio: [0.0; 3], max_small: [0; 3] };
-        for (i, c) in cases.iter().enumerate() {
-            let mut rs: Vec<Option<&WRes>> = vec![r_rel.get(i)];
-            if let Some(r) = &r_chk {
-                rs.push(r.get(i));
+        for pass in 0..2 {
+            for (i, c) in cases.iter().enumerate() {
+                let mut rs: Vec<Option<&WRes>> = vec![r_rel.get(i)];
+                if let Some(r) = &r_chk {
+                    rs.push(r.get(i));
+                }
+                if pass == 0 {
+                    ev.report_deaths(c, &rs);
+                } else {
+                    ev.eval_case(c, &rs);
+                }
             }
-            ev.eval_case(c, &rs);
         }
         let (mr, ms) = (ev.max_ratio, ev.max_small);
         out.extra("alloc_seen", json_str(&format!("largest (peak - 64 KiB) / length: {:.2} / {:.2} / {:.2}; largest peak among inputs whose calls stayed below 64 KiB: {} / {} / {} bytes (validating / typed+header / Param tree)", mr[0], mr[1], mr[2], ms[0], ms[1], ms[2])));
